@@ -9,8 +9,17 @@ import (
 
 const c20Life = "pkg/controllers/nodeclaim/lifecycle"
 
+// every controller that writes status.conditions of a NodePool (a JSON merge patch replaces the list as a whole)
+var c20ConditionWriters = [][2]string{
+	{"pkg/controllers/nodepool/readiness", "Controller.Reconcile"},
+	{"pkg/controllers/nodepool/registrationhealth", "Controller.Reconcile"},
+	{"pkg/controllers/nodepool/validation", "Controller.Reconcile"},
+	{c20Life, "Registration.updateNodePoolRegistrationHealth"},
+	{c20Life, "Liveness.updateNodePoolRegistrationHealth"},
+}
+
 func init() {
-	register([]string{"pkg/state/nodepoolhealth", c20Life}, func(g *gen) {
+	register([]string{"pkg/state/nodepoolhealth", c20Life, "pkg/controllers/nodepool/readiness", "pkg/controllers/nodepool/registrationhealth", "pkg/controllers/nodepool/validation"}, func(g *gen) {
 		// ---- C20: registration health window ----
 		g.natConst("Health", "pkg/state/nodepoolhealth", "BufferSize", "bufferSize")
 		g.ratioConst("Health", "pkg/state/nodepoolhealth", "ThresholdFalse", "thresholdFalse")
@@ -33,6 +42,8 @@ func init() {
 		// Registration.Reconcile: Registered=True is set on the NodeClaim before the NodePool is updated
 		g.c20CallSeq("Health", c20Life, "Registration.Reconcile", "registrationCalls",
 			[]string{"SetTrue", "updateNodePoolRegistrationHealth"})
+		// ---- C20: the writers of a NodePool's status.conditions and how each of them patches ----
+		g.c20StatusPatches("Health", "conditionWriters", c20ConditionWriters)
 	})
 }
 
@@ -115,6 +126,49 @@ func (g *gen) c20CallSeq(group, pkgPath, fn, lean string, suffixes []string) {
 			b.WriteString(", ")
 		}
 		b.WriteString(leanStr(s))
+	}
+	b.WriteString("]\n\n")
+}
+
+// c20StatusPatches emits, for every listed function, how each `….Status().Patch(ctx, obj, P)` call in it builds P:
+// "optimistic-lock" if P mentions MergeFromWithOptimisticLock (the write is rejected with 409 when the object has moved
+// on), else "plain" (a stale status.conditions list would be written back as a whole).
+func (g *gen) c20StatusPatches(group, lean string, sites [][2]string) {
+	b := g.out(group)
+	fmt.Fprintf(b, "/-- the controllers that write a NodePool's `status.conditions` and, per `Status().Patch` call in them, whether the patch carries the optimistic lock -/\ndef %s : List (String × List String) := [", lean)
+	for i, site := range sites {
+		_, fd := g.findFunc(site[0], site[1])
+		if fd == nil {
+			g.errf("%s.%s: not found", site[0], site[1])
+			continue
+		}
+		var kinds []string
+		ast.Inspect(fd.Body, func(n ast.Node) bool {
+			ce, ok := n.(*ast.CallExpr)
+			if !ok || !strings.HasSuffix(exprString(ce.Fun), "Status().Patch") || len(ce.Args) < 3 {
+				return true
+			}
+			kind := "plain"
+			ast.Inspect(ce.Args[2], func(m ast.Node) bool {
+				if id, ok := m.(*ast.Ident); ok && id.Name == "MergeFromWithOptimisticLock" {
+					kind = "optimistic-lock"
+				}
+				return true
+			})
+			kinds = append(kinds, kind)
+			return true
+		})
+		if i > 0 {
+			b.WriteString(",\n  ")
+		}
+		fmt.Fprintf(b, "(%s, [", leanStr(site[0]+"."+site[1]))
+		for j, k := range kinds {
+			if j > 0 {
+				b.WriteString(", ")
+			}
+			b.WriteString(leanStr(k))
+		}
+		b.WriteString("])")
 	}
 	b.WriteString("]\n\n")
 }
